@@ -35,6 +35,10 @@ def worker(pid, tier, seed, spec_file, out_file):
     with open(spec_file, "rb") as fh:
         spec = pickle.load(fh)
     ctx = core.Ctx(pid, tier, seed, shard=spec.get("name", "shard"))
+    if os.environ.get("PYTHONHASHSEED", "0") != "0":
+        ctx.count("env.shards_with_other_hashseed")
+    if not __debug__:
+        ctx.count("env.shards_with_asserts_disabled")
     entered = ctx.names["repository functions entered while the monitors were installed"]
     root = os.path.realpath(core.REPO) + os.sep
     mon = sys.monitoring
@@ -83,7 +87,8 @@ def run_shards(pid, tier, seed, specs, ctx, timeout):
         cmd = [sys.executable, "-X", "dev", "-W", "ignore", *spec.get("python_flags", []), "-m", "vf.main", "--worker", pid, tier, str(seed), sf, of]
         t0 = time.time()
         try:
-            res = subprocess.run(cmd, timeout=timeout, capture_output=True, text=True)
+            # a shard may also ask for environment variables (e.g. another PYTHONHASHSEED: iteration order of sets of strings)
+            res = subprocess.run(cmd, timeout=timeout, capture_output=True, text=True, env=dict(os.environ, **spec.get("env", {})))
         except subprocess.TimeoutExpired:
             return spec, None, f"watchdog: shard {spec.get('name')} exceeded {timeout}s", time.time() - t0
         if not os.path.exists(of):
@@ -175,6 +180,12 @@ def replay(pid, path):
     mod = load_prop(pid)
     with open(path) as fh:
         case = json.load(fh)
+    want_env = case.get("env", {})
+    if want_env.get("PYTHONHASHSEED") not in (None, "", os.environ.get("PYTHONHASHSEED")) and not os.environ.get("VF_REPLAY_REEXEC"):
+        # the case was observed under another string-hash seed: replay in an interpreter started the same way
+        env = dict(os.environ, PYTHONHASHSEED=want_env["PYTHONHASHSEED"], VF_REPLAY_REEXEC="1")
+        flags = ["-O"] if want_env.get("python_optimize") else []
+        return subprocess.run([sys.executable, "-X", "dev", "-W", "ignore", *flags, "-m", "vf.main", pid, "--replay", path], env=env).returncode
     ctx = core.Ctx(pid, "quick", 0, shard="replay")
     if hasattr(mod, "setup"):
         mod.setup(ctx)
